@@ -1,10 +1,12 @@
 """Kernels / constants of area `online` (C17): what the four public functions hand to _sync_get_key / _async_get_key, the
 GetKey construction, the static presentation contexts, the ept_map request, the verification trailer.
 
-Arguments are tied as *identity kernels*: the n-th positional argument of the call is translated over parameters named like
-the source expression (`blob.key_identifier.l0` -> parameter blob_key_identifier_l0), so the generated definition is the
-identity exactly when the call site passes that expression in that position; `l0 = -1` etc. of the protect flavours are
-inlined by the translator (local assigned once), so `k_onl_*_protect_l0` is the closed term (-1) as long as the source says so.
+Arguments are tied by *tracing* kernels: the n-th positional argument (or keyword) of the get_key call, with every local that is
+assigned exactly once inlined (so the names of locals do not matter), must be a given source expression -- e.g.
+`DPAPINGBlob.unpack(data).key_identifier.l0`, `ProtectionDescriptor.parse(protection_descriptor).get_target_sd()`, `-1` -- and the
+generated definition is then the identity on a parameter standing for that expression, or the closed term for a literal. Anything
+else makes the kernel "not located" (a broken obligation of C17). GetKey(...) inside the conversation functions must receive the
+function's own positional parameters 1..5 in order.
 The conversation skeleton of _sync_get_key / _async_get_key (which object is bound with which contexts, which context id /
 opnum / stub / verification trailer go into the two rpc.request calls) is a shape kernel per flavour: it yields the literal or
 the name the first request's context id comes from.  The two flavours differ there for a benign reason (`rpc.request(0, ...)` vs
@@ -78,70 +80,96 @@ def _conversation_shape(func):
     raise Unsupported(f"conversation skeleton: context id of the ept_map request is {_norm(a0)}")
 
 
-def _target_sd_source(expected_var, expected_src):
-    def sel(func):
-        found = []
-        for st in _walk_own(func):
-            if isinstance(st, ast.Assign) and len(st.targets) == 1 and isinstance(st.targets[0], ast.Name) and st.targets[0].id == expected_var:
-                found.append(_norm(st.value))
-        if found != [expected_src]:
-            raise Unsupported(f"{expected_var} is assigned {found}")
-        return "true", f"{expected_var} = {expected_src}"
-    return sel
+def _inline_locals(func, expr, depth=0):
+    """`expr` with every local that is assigned exactly once in `func` (and is not a parameter) replaced by its defining
+    expression, recursively: makes the comparison below insensitive to the names of local variables."""
+    params = {a.arg for a in func.args.args + func.args.kwonlyargs}
+    defs = {}
+    for st in _walk_own(func):
+        if isinstance(st, ast.Assign) and len(st.targets) == 1 and isinstance(st.targets[0], ast.Name):
+            defs.setdefault(st.targets[0].id, []).append(st.value)
+        elif isinstance(st, (ast.AugAssign, ast.AnnAssign)) and isinstance(st.target, ast.Name):
+            defs.setdefault(st.target.id, []).append(None)
+
+    class Sub(ast.NodeTransformer):
+        def visit_Name(self, node):
+            if isinstance(node.ctx, ast.Load) and node.id not in params and len(defs.get(node.id, [])) == 1 and defs[node.id][0] is not None and depth < 6:
+                v = defs[node.id][0]
+                v = v.value if isinstance(v, ast.Await) else v
+                return _inline_locals(func, v, depth + 1)
+            return node
+
+    import copy
+
+    return Sub().visit(copy.deepcopy(expr))
 
 
-def _arg_is(callee, idx, expected_src, param):
-    """the idx-th positional argument of the first call of `callee` is the expression `expected_src`: identity on `param`
-    (for str/bytes-valued attribute chains, which the expression translator only handles for integers)"""
+def _arg_traces(callee, key, expected, emit):
+    """The argument `key` (position or keyword) of the first call of `callee`, with single-assignment locals inlined, is the
+    expression `expected` (source text, or a function of the enclosing def returning it): the kernel is then `emit`."""
     def sel(func):
+        want = expected(func) if callable(expected) else expected
         for st in _walk_own(func):
             for sub in ast.walk(st):
                 if isinstance(sub, ast.Call) and _norm(sub.func) == callee:
-                    if idx < len(sub.args) and _norm(sub.args[idx]) == expected_src:
-                        return param, f"{callee}(... argument {idx} = {expected_src} ...)"
-                    raise Unsupported(f"argument {idx} of {callee} is not {expected_src}")
+                    arg = None
+                    if isinstance(key, int):
+                        arg = sub.args[key] if key < len(sub.args) else None
+                    else:
+                        arg = next((kw.value for kw in sub.keywords if kw.arg == key), None)
+                    if arg is None:
+                        raise Unsupported(f"{callee} has no argument {key}")
+                    got = _norm(_inline_locals(func, arg))
+                    if got != want:
+                        raise Unsupported(f"argument {key} of {callee} is {got}, not {want}")
+                    return emit, f"{callee}(... {key}: {_norm(arg)}  [= {got}] ...)"
         raise Unsupported(f"no call of {callee}")
     return sel
 
 
-def _args(prefix, func, callee, names, types):
-    """identity kernels for the positional arguments 1.. of the get_key call and the three credential keywords"""
+def _own_param(i):
+    return lambda func: func.args.args[i].arg
+
+
+_BLOB = "DPAPINGBlob.unpack(data)"
+_UNPROT_SRC = [_BLOB + ".protection_descriptor.get_target_sd()", _BLOB + ".key_identifier.root_key_identifier",
+               _BLOB + ".key_identifier.l0", _BLOB + ".key_identifier.l1", _BLOB + ".key_identifier.l2"]
+_PROT_SRC = ["ProtectionDescriptor.parse(protection_descriptor).get_target_sd()", "root_key_identifier", "-1", "-1", "-1"]
+_UNPROT = ["target_sd", "root_key_identifier", "l0", "l1", "l2"]
+_TY = [S, S, Z, Z, Z]
+
+
+def _call_site(prefix, func, callee, srcs, closed_from=None):
+    """kernels for the positional arguments 1..5 of the get_key call and the three credential keywords of one public function:
+    identities on a parameter standing for the traced source expression, or the closed term when the source is a literal"""
     out = []
-    for idx, (nm, ty) in enumerate(zip(names, types), start=1):
-        if nm == "blob_key_identifier_root_key_identifier":
-            out.append(K(f"{prefix}_arg{idx}", F, func, ("custom", _arg_is(callee, idx, "blob.key_identifier.root_key_identifier", nm)), [(nm, ty)], ty, props=P))
-            continue
-        out.append(K(f"{prefix}_arg{idx}", F, func, ("callarg", callee, 0, idx), [(nm, ty)], ty, props=P))
+    for idx, (src, nm, ty) in enumerate(zip(srcs, _UNPROT, _TY), start=1):
+        if closed_from is not None and idx >= closed_from:
+            out.append(K(f"{prefix}_arg{idx}", F, func, ("custom", _arg_traces(callee, idx, src, f"({src})")), [], ty, props=P))
+        else:
+            out.append(K(f"{prefix}_arg{idx}", F, func, ("custom", _arg_traces(callee, idx, src, nm)), [(nm, ty)], ty, props=P))
     for kw in ("username", "password", "auth_protocol"):
-        out.append(K(f"{prefix}_kw_{kw}", F, func, ("callarg", callee, 0, kw), [(kw, S)], S, props=P))
+        out.append(K(f"{prefix}_kw_{kw}", F, func, ("custom", _arg_traces(callee, kw, kw, kw)), [(kw, S)], S, props=P))
     return out
 
 
-_UNPROT = ["target_sd", "blob_key_identifier_root_key_identifier", "blob_key_identifier_l0", "blob_key_identifier_l1", "blob_key_identifier_l2"]
-_PROT = ["sd", "root_key_identifier", "l0", "l1", "l2"]
-_TY = [S, S, Z, Z, Z]
+def _getkey_args(prefix, func):
+    """GetKey(p1, p2, p3, p4, p5): the conversation function's own positional parameters 1..5 (0 is the server), in order"""
+    return [K(f"{prefix}_arg{i}", F, func, ("custom", _arg_traces("GetKey", i, _own_param(i + 1), nm)), [(nm, ty)], ty, props=P)
+            for i, (nm, ty) in enumerate(zip(["target_sd", "root_key_id", "l0", "l1", "l2"], _TY))]
+
 
 KERNELS = (
-    _args("k_onl_unprot", "ncrypt_unprotect_secret", "_sync_get_key", _UNPROT, _TY)
-    + _args("k_onl_aunprot", "async_ncrypt_unprotect_secret", "_async_get_key", _UNPROT, _TY)
-    # protect: l0/l1/l2 are locals assigned once (-1): inlined, so these three are closed terms
-    + [K(f"k_onl_prot_arg{i}", F, "ncrypt_protect_secret", ("callarg", "_sync_get_key", 0, i), [(_PROT[i - 1], _TY[i - 1])] if i <= 2 else [], _TY[i - 1], props=P)
-       for i in range(1, 6)]
-    + [K(f"k_onl_aprot_arg{i}", F, "async_ncrypt_protect_secret", ("callarg", "_async_get_key", 0, i), [(_PROT[i - 1], _TY[i - 1])] if i <= 2 else [], _TY[i - 1], props=P)
-       for i in range(1, 6)]
+    _call_site("k_onl_unprot", "ncrypt_unprotect_secret", "_sync_get_key", _UNPROT_SRC)
+    + _call_site("k_onl_aunprot", "async_ncrypt_unprotect_secret", "_async_get_key", _UNPROT_SRC)
+    + _call_site("k_onl_prot", "ncrypt_protect_secret", "_sync_get_key", _PROT_SRC, closed_from=3)
+    + _call_site("k_onl_aprot", "async_ncrypt_protect_secret", "_async_get_key", _PROT_SRC, closed_from=3)
     + [
-        K("k_onl_unprot_sd_src", F, "ncrypt_unprotect_secret", ("custom", _target_sd_source("target_sd", "blob.protection_descriptor.get_target_sd()")), [], B, props=P),
-        K("k_onl_aunprot_sd_src", F, "async_ncrypt_unprotect_secret", ("custom", _target_sd_source("target_sd", "blob.protection_descriptor.get_target_sd()")), [], B, props=P),
-        K("k_onl_prot_sd_src", F, "ncrypt_protect_secret", ("custom", _target_sd_source("sd", "descriptor.get_target_sd()")), [], B, props=P),
-        K("k_onl_aprot_sd_src", F, "async_ncrypt_protect_secret", ("custom", _target_sd_source("sd", "descriptor.get_target_sd()")), [], B, props=P),
-        # the GetKey(...) construction inside both conversation flavours
         K("k_onl_sync_epm_ctx", F, "_sync_get_key", ("custom", _conversation_shape), [("epm_context_id", Z)], Z, props=P),
         K("k_onl_async_epm_ctx", F, "_async_get_key", ("custom", _conversation_shape), [("epm_context_id", Z)], Z, props=P),
     ]
-    + [K(f"k_onl_getkey_arg{i}", F, "_sync_get_key", ("callarg", "GetKey", 0, i), [(n, ty)], ty, props=P)
-       for i, (n, ty) in enumerate(zip(["target_sd", "root_key_id", "l0", "l1", "l2"], _TY))]
-    + [K(f"k_onl_agetkey_arg{i}", F, "_async_get_key", ("callarg", "GetKey", 0, i), [(n, ty)], ty, props=P)
-       for i, (n, ty) in enumerate(zip(["target_sd", "root_key_id", "l0", "l1", "l2"], _TY))]
+    + _getkey_args("k_onl_getkey", "_sync_get_key")
+    + _getkey_args("k_onl_agetkey", "_async_get_key")
     + [
         # _create_bind / _create_alter_context: the fixed fields of the bind PDUs the conversation sends
         K("k_onl_bind_max_xmit", "_rpc/_client.py", "RpcClient._create_bind", ("callarg", "Bind", 0, "max_xmit_frag"), [], Z, props=P),
